@@ -1,6 +1,6 @@
 CONFIG = {
     "level": "proof",
-    "level_text": "PARTIAL. Lean theorems (kernel-checked, no sorry/axioms) about the write-ordering model of the badger backend, in which every operation is a plan of atomic durable steps in the code's order and a crash is a prefix of the plan: the full plan is the uninterrupted operation; whatever prefix is on disk, every read at an earlier version is unchanged (previously finalized versions intact for Commit/Finalize); before the last step all metadata observers are those of the old state (observably old or new); after a crash before the metadata commit a retried Commit / Finalize has the same plan and a retried Prune is accepted (it skips the lone roots whose root-node key is already gone), and each ends in a state that reads exactly like the uninterrupted one; a checkpoint restore interrupted before its Finalize's metadata commit leaves the last finalized version untouched and, after reopen, no restore in progress. One COUNTEREXAMPLE is proved on the model and reproduced by the real backend: a crash between the Finalize of a restore and the deletion of its journal makes reopen delete the finalized version's nodes. The Go code is tied on every run by crashdrv: verif crash-point hooks between successive durable writes; the boundary sequence of every real operation must equal the model's plan (number, order, kind), and for EVERY boundary of the last operation of generated histories a child process exits there, the database is reopened, previously finalized roots are read back, the state is classified old/mid/new, the operation is retried and compared with the uninterrupted run; the classification must be the one the model predicts.",
+    "level_text": "PARTIAL. Lean theorems (kernel-checked, no sorry/axioms) about the write-ordering model of the badger backend, in which every operation is a plan of atomic durable steps in the code's order and a crash is a prefix of the plan: the full plan is the uninterrupted operation; whatever prefix is on disk, every read at an earlier version is unchanged (previously finalized versions intact for Commit/Finalize); before the last step all metadata observers are those of the old state (observably old or new); after a crash before the metadata commit a retried Commit / Finalize has the same plan and a retried Prune is accepted (it skips the lone roots whose root-node key is already gone), and each ends in a state that reads exactly like the uninterrupted one; a checkpoint restore interrupted before its Finalize's metadata commit leaves the last finalized version untouched and, after reopen, no restore in progress. For pathbadger (write-ordering model PathCrash.lean over the PathBadger bookkeeping model): the full plans of Commit / Finalize / Prune are the uninterrupted operations, their step names are the hook names, whatever prefix of a Commit or Finalize is on disk every root of an earlier version reads exactly as before, and the mechanism of the lost repeated restore (finding D10) is a theorem: after an aborted first attempt the second restore gets sequence number 1, Finalize copies nothing and the finalized root is unreadable. One COUNTEREXAMPLE is proved on the badger model and reproduced by the real backend: a crash between the Finalize of a restore and the deletion of its journal makes reopen delete the finalized version's nodes. The Go code is tied on every run by crashdrv: verif crash-point hooks between successive durable writes; the boundary sequence of every real operation must equal the model's plan (number, order, kind), and for EVERY boundary of the last operation of generated histories a child process exits there, the database is reopened, previously finalized roots are read back, the state is classified old/mid/new, the operation is retried and compared with the uninterrupted run; the classification must be the one the model predicts.",
     "technique": "Lean 4 proof over a write-ordering model + fault enumeration at verif-tagged crash points on the real badger and pathbadger NodeDBs",
     "models": ["nodedb"],
     "lean_sources": ["OasisModel/NodeDB", "OasisModel/Proto.lean"],
@@ -13,13 +13,13 @@ CONFIG = {
     "trusted_base": [
         "Lean 4.33 kernel (axioms per theorem listed under coverage.axioms; at most propext, Classical.choice, Quot.sound)",
         "atomicity of one WriteBatch.Flush / CommitAt, Badger's own recovery (NoFsync, process crash: the page cache survives) and the OS: trusted, not modelled; a crash INSIDE a flush is not injected",
-        "OasisModel/NodeDB/Crash.lean (plans over the Badger bookkeeping model) is tied to badger.go by crashdrv (boundary sequences + predicted crash classes); pathbadger's write order is only a table (Crash.pathbadgerNames) checked the same way, its crash behaviour is judged directly against the property (old / new / retry completes)",
+        "OasisModel/NodeDB/Crash.lean (plans over the Badger bookkeeping model) is tied to badger.go by crashdrv (boundary sequences + predicted crash classes); pathbadger's plans (PathCrash.lean) are tied by the same boundary-sequence check (C07.path_plan_names links the table Crash.pathbadgerNames to the plans); its observable crash behaviour is judged directly against the property (old / new / retry completes), no retry theorem for pathbadger",
         "the verif hooks go/storage/mkvs/db/{badger,pathbadger}/crashpoint_verif.go (+ empty crashpoint_noverif.go) and the add-only verifCrashPoint(...) lines; harness/cmd/crashdrv, harness/hlib",
     ],
     "assumptions": [
         "a crash is a process exit between two durable writes (os.Exit inside the hook); power loss with fsync disabled is outside the model",
         "histories as in C06; the checkpoint restore is driven as the consensus layer does: StartMultipartInsert, checkpoint.Restorer chunks, Finalize",
     ],
-    "partial": "Theorem is about the model's atomic steps; atomicity of one flush, Badger recovery and the OS are trusted. No Lean write-ordering model for pathbadger (boundary table + fault enumeration only). Continued operation after retry is compared through the observers and a full read-back, not by further generated operations.",
+    "partial": "Theorem is about the model's atomic steps; atomicity of one flush, Badger recovery and the OS are trusted. For pathbadger the retry-completes statements are only checked by fault enumeration (a retried Commit gets a new sequence number, so its state is not equal but only observably equal to the uninterrupted one); the multipart model covers only what finding D10 needs. Continued operation after retry is compared through the observers and a full read-back, not by further generated operations.",
     "explanation": "Theorems about plans/prefixes/recover on the badger write-ordering model; fault enumeration at every hook boundary of Commit, Finalize, Prune and a complete checkpoint restore on both real backends.",
 }
